@@ -125,6 +125,34 @@ func (s *tlsfState) alloc(symAlign bool, recipe bool) bool {
 	return true
 }
 
+// allocRange: recipe allocation with a symbolic size in [lo,hi], alignment 1, default strategy; assumed granted.
+func (s *tlsfState) allocRange(name string, lo, hi int) {
+	size := lo
+	if hi > lo {
+		size = verifNondetInt(name)
+		verifAssume(size >= lo)
+		verifAssume(size <= hi)
+	}
+	ok, req, err := s.m.CreateAllocationRequest(size, 1, false, 1, 0, maxI)
+	verifAssume(err == nil)
+	verifAssume(ok)
+	ud := new(int)
+	verifAssume(s.m.Alloc(req, 1, ud) == nil)
+	off, _ := s.m.AllocationOffset(req.BlockAllocationHandle)
+	s.live = append(s.live, ghost{req.BlockAllocationHandle, off, size, 1, false, ud})
+}
+
+// allocRange2: recipe allocation of an already symbolic size.
+func (s *tlsfState) allocRange2(size int) {
+	ok, req, err := s.m.CreateAllocationRequest(size, 1, false, 1, 0, maxI)
+	verifAssume(err == nil)
+	verifAssume(ok)
+	ud := new(int)
+	verifAssume(s.m.Alloc(req, 1, ud) == nil)
+	off, _ := s.m.AllocationOffset(req.BlockAllocationHandle)
+	s.live = append(s.live, ghost{req.BlockAllocationHandle, off, size, 1, false, ud})
+}
+
 func (s *tlsfState) free(i int, recipe bool) {
 	verifOp()
 	g := s.live[i]
@@ -194,6 +222,7 @@ func tlsfBlockSize(cfg int) int {
 //
 //	0: K arbitrary operations from a fresh block
 //	1: recipe T(3,F,pi): 3 allocations, then frees of a chosen subset in a chosen order, then K2 arbitrary operations
+//	2: three holes (sizes 1..64, all filed in one free list) separated by live allocations, freed in any order
 func tlsfHistory(prop int, cfg int) {
 	B := tlsfBlockSize(cfg)
 	m := NewTLSFBlockMetadata(1, nullGran{})
@@ -217,14 +246,39 @@ func tlsfHistory(prop int, cfg int) {
 		}
 		K = 2
 	}
+	if cfg/10 == 2 {
+		// three holes filed in one free list: hole, separator, hole, separator, hole, separator; the holes are freed
+		// in any order (free-list order = reverse order of freeing)
+		var holes []int
+		for i := 0; i < 3; i++ {
+			s.allocRange("holeSize", 1, 64)
+			holes = append(holes, len(s.live)-1)
+			s.allocRange("sepSize", 16, 16)
+		}
+		order := verifChoice("holeFreeOrder", 6)
+		perm := [][]int{{0, 1, 2}, {0, 2, 1}, {1, 0, 2}, {1, 2, 0}, {2, 0, 1}, {2, 1, 0}}[order]
+		hs := []BlockAllocationHandle{s.live[holes[0]].h, s.live[holes[1]].h, s.live[holes[2]].h}
+		for _, k := range perm {
+			for i := range s.live {
+				if s.live[i].h == hs[k] {
+					s.free(i, true)
+					break
+				}
+			}
+		}
+		K = 1
+		if verifTier() == 1 {
+			K = 2
+		}
+	}
 	endOnly := prop == pC01 || prop == pC03
 	if endOnly {
 		lo := 1
-		if cfg/10 == 1 {
+		if cfg/10 >= 1 {
 			lo = 0
 		}
 		K = lo + verifChoice("historyLength", K-lo+1)
-	} else if cfg/10 == 1 {
+	} else if cfg/10 >= 1 {
 		s.check("after-recipe")
 	}
 	for step := 0; step < K; step++ {
@@ -351,26 +405,46 @@ func Verif_C05_TLSF_Search(cfg int) {
 	m := NewTLSFBlockMetadata(1, nullGran{})
 	m.Init(B)
 	s := &tlsfState{m: m, B: B, prop: pC05}
-	n := 3
-	if verifTier() == 1 {
-		n = 4
-	}
-	if cfg/10 == 1 {
-		n = 2
-	}
-	for i := 0; i < n; i++ {
-		s.alloc(i == 1, true)
-	}
-	nf := verifChoice("recipeFrees", 3)
-	for i := 0; i < nf && len(s.live) > 0; i++ {
-		s.free(verifChoice("recipeVictim", len(s.live)), true)
+	if cfg/10 == 2 {
+		// bucket-boundary recipe: two holes of any size up to 300 bytes separated by live allocations, a small
+		// trailing free block; covers every combination of free-list buckets for hole and request sizes
+		s.allocRange("hole1", 1, 300)
+		s.allocRange("sep1", 16, 16)
+		s.allocRange("hole2", 1, 300)
+		s.allocRange("sep2", 16, 16)
+		tail := verifNondetInt("tailFree")
+		verifAssume(tail >= 0)
+		verifAssume(tail <= 200)
+		rest := s.m.SumFreeSize() - tail
+		verifAssume(rest >= 1)
+		s.allocRange2(rest)
+		s.free(2, true)
+		s.free(0, true)
+	} else {
+		n := 3
+		if verifTier() == 1 {
+			n = 4
+		}
+		if cfg/10 == 1 {
+			n = 2
+		}
+		for i := 0; i < n; i++ {
+			s.alloc(i == 1, true)
+		}
+		nf := verifChoice("recipeFrees", 3)
+		for i := 0; i < nf && len(s.live) > 0; i++ {
+			s.free(verifChoice("recipeVictim", len(s.live)), true)
+		}
 	}
 	size := verifNondetInt("reqSize")
 	verifAssume(size >= 1)
 	verifAssume(size <= 2*B)
-	align := pow2("reqAlignLog", 6)
+	align := 1
+	if cfg/10 != 2 {
+		align = pow2("reqAlignLog", 6)
+	}
 	strategy := symStrategy("reqStrategy")
-	bounded := verifChoice("bounded", 2) == 1
+	bounded := cfg/10 != 2 && verifChoice("bounded", 2) == 1
 	maxOffset := maxI
 	if bounded {
 		maxOffset = verifNondetInt("maxOffset")
